@@ -44,6 +44,12 @@ def check(run):
                        'c04', timeout=3000)
     run.sample_from(traces[0], 3)
     run.validate('Trace_Controller', ctlfam.trace_cfg(INV, PROP), traces, 'tv', timeout=3000)
+    # several fans in one daemon, controllers as the start-up code builds them (default / named algorithms): the fan with the
+    # constant curve settles whatever the others do
+    from props import recfam
+    mt = run.drive('TestDriveC04Multi', 8, lambda i: dict(VERIF_SEED=run.seed * 77 + i, VERIF_N=run.pick(4, 40)), 'c04multi', timeout=3000)
+    run.validate('Rec_Backend', recfam.rec_cfg('Rec_Backend', ['C04_MultiFanSettles']), mt, 'multi', parallel=8)
+    run.cov['multi_fan_runs'] = recfam.count_lines(mt)
     cycles = ctlfam.count_events(traces, lambda ln: '"ev":"Cycle"' in ln)
     runs = ctlfam.count_events(traces, lambda ln: '"ev":"Init"' in ln)
     return run.finish('model_checking',
